@@ -3,6 +3,7 @@ PROPS = {
     "C16": dict(pkg="c16", shards=16, level="exploration",
                 technique="property-based testing (rapid) + exhaustive enumeration of small integers; oracle = format/parse round trip and an independent backtracking reference parser of the unit grammar",
                 level_text="Exploration: every integer 0..200000 on the five built-in unit sets in both forms (exhaustive for that range), plus generated unit definitions x boundary-biased integers/floats and grammar-generated sentences with one-edit near-misses, each judged against all readings enumerated by an independent reference parser. Absence of violations outside the explored cases is not established.",
+                fuzz=[{"target": "FuzzSentence", "seconds": 60}],
                 level_note="Trusts the reference parser (harness/units) as the reading of the stated grammar; unit names are non-empty, digit-free, whitespace-free; ambiguous generated unit sets (several distinct readings) are counted as unspecified, not judged.",
                 assumptions=["unit names are non-empty, digit-free and white-space-free (the generator's domain)",
                              "quantities are non-negative (the property's domain)",
@@ -46,6 +47,7 @@ PROPS["C03"] = dict(pkg="c03", shards=16, level="exploration",
     assumptions=["native presence = map key present / pointer field non-nil / value field always present unless treat-empty-as-default and zero"])
 
 PROPS["C04"] = dict(pkg="c04", shards=16, level="exploration",
+    fuzz=[{"target": "FuzzDecoded", "seconds": 90}],
     technique="property-based testing (rapid) with fault-style value substitution, executed in supervised worker processes; oracle = totality (value or error; panic, fatal error or no return is a violation)",
     level_text="Exploration: generated schemas of every kind x hostile values from the decoder domain and from arbitrary Go values substituted at schema-directed positions, genuine native values damaged by reflection, and deep nesting; every operation (Unserialize, data-mode ValidateCompatibility, Validate, Serialize) runs in a supervised worker so that panics, stack exhaustion and hangs are observed and attributed.",
     level_note="Cyclic Go values are excluded (no finite description); depth is bounded by what the decoders can produce (10000); a hang is only reported after a second attempt in a fresh worker with three times the deadline; one recorded known finding (single-property self-referential object + shorthand) is excluded from generation and exercised by a dedicated case.",
@@ -78,6 +80,7 @@ PROPS["C09"] = dict(pkg="c09", shards=16, level="exploration",
     level_note="Generated schemas stay inside what the meta-schema can express for content it merely stores (IDs matching idType, non-empty display strings and property names, non-empty enums, no TypedStringEnumSchema[T]); behaviour is compared by value only for schemas without struct mapping, because the struct mapping (which changes defaulting of by-value members) is not part of a description.")
 
 PROPS["C10"] = dict(pkg="c10", shards=16, level="exploration",
+    fuzz=[{"target": "FuzzDescription", "seconds": 120}],
     technique="mutation-based property testing (rapid + per-description enumeration of single structural mutations, sampled doubles, grammar-free trees) executed in supervised workers; oracle = load returns error or a schema on which every exercised operation is total",
     level_text="Exploration: valid descriptions of generated scopes and plugin schemas are mutated at every node (delete / rename / retype / re-point / unparsable texts / bad unit multipliers), loaded through UnserializeScope / UnserializeSchema in a supervised worker and, when accepted, exercised with generated inputs; panics, fatal errors and hangs at load time or on first use are violations.",
     level_note="The quick tier runs a generated sample (about 400 per description) of each description's mutation enumeration, the thorough tier all of it; Client.ReadSchema is exercised by C08's hello-message faults (it is UnserializeSchema behind a CBOR decode).",
@@ -95,12 +98,14 @@ PROPS["C13"] = dict(pkg="c13", shards=16, level="exploration", race=True,
     cap_s={"quick": 900, "thorough": 3400})
 
 PROPS["C07"] = dict(pkg="c07", shards=16, level="fault_enumeration",
+    fuzz=[{"target": "FuzzServerInput", "seconds": 90}],
     technique="grammar-based generation of client scripts (rapid) + enumeration of every truncation offset, run against the real RunATPServer in supervised workers; oracle = process survival, return, and an independent parse of the output stream against a reference reading of the script",
     level_text="Fault enumeration: for each generated client script (valid and invalid frames in any order, step behaviours incl. gated ones released before or after the input ends) the whole script, every truncation offset of it (quick: every third offset at a generated phase; thorough: all) and failing-output variants are fed to the real server in a supervised worker; survival, return and the one-terminal-message-per-read-work-start invariant are checked.",
     level_note="The reference reading of a script follows the statement: the server reads frames until the first frame it cannot decode as a runtime message, client-done or the end of input; while the output stays open every work-start frame read before that owes exactly one terminal message for its run ID ('' when the frame carries no usable run/step ID). Message order is not judged. 'Returns' is judged after every gate has been opened, with an 8+4 s bound.",
     cap_s={"quick": 900, "thorough": 3400})
 
 PROPS["C08"] = dict(pkg="c08", shards=16, level="fault_enumeration",
+    fuzz=[{"target": "FuzzClientStream", "seconds": 90}],
     technique="fault injection at every byte offset of recorded server transcripts, replayed to the real client by a causal fake server inside supervised workers; oracle = bounded return of every call, no panic / goroutine leak, and success only if an independent sequential reading of the faulted stream contains the intact work-done",
     level_text="Fault enumeration: transcripts recorded from the real server (v3, 1-3 concurrent runs, with signal and error frames) and hand-built v1 transcripts are replayed causally to a real client with EOF / read error / byte corruption / garbage tail at every byte offset (quick: every fifth offset at a generated phase; thorough: all), hello variants and an independently failing write side; ReadSchema, all Execute calls and Close must return, without panic or leaked goroutines, and no success may be reported that the faulted stream does not contain.",
     level_note="Errors are always acceptable outcomes; only fabricated successes, panics, hangs (4-8 s bounds inside the worker) and leaked client goroutines are violations. With a failing write side the server->client stream is additionally ended, because the property's premise is a broken server stream.",
